@@ -53,7 +53,8 @@ def build(d, symbolic=False, hooks=None):
         # the very same (parent-less) object is passed for two arguments
         k0, k1 = list(kw)[:2]
         if isinstance(kw[k0], pg.Symbolic):
-          kw[k1] = kw[k0]
+          # ... directly, or inside a plain container passed for the second argument
+          kw[k1] = {True: kw[k0], 'list': [kw[k0]], 'dict': {'n': kw[k0]}}.get(d['same'], kw[k0])
       base_cls = cls
       if hooks is not None:
         cls = hooks.cls(d['$o']) or cls
@@ -183,8 +184,8 @@ def vdesc(max_leaves=10, keys=None, objects=True, tuples=False, opaque=False,
     if objects:
       def obj(name):
         fields = classes.FIELDS[name]
-        return st.tuples(st.dictionaries(st.sampled_from(fields), c, max_size=len(fields)), st.sampled_from([False] * 7 + [True])).map(
-            lambda t: {'$o': name, 'a': t[0], 'same': True} if t[1] and len(t[0]) >= 2 else {'$o': name, 'a': t[0]})
+        return st.tuples(st.dictionaries(st.sampled_from(fields), c, max_size=len(fields)), st.sampled_from([False] * 7 + [True, 'list', 'dict'])).map(
+            lambda t: {'$o': name, 'a': t[0], 'same': t[1]} if t[1] and len(t[0]) >= 2 else {'$o': name, 'a': t[0]})
       opts.append(st.sampled_from(classes.UNTYPED).flatmap(obj))
     if tuples:
       opts.append(st.lists(c, max_size=3).map(lambda v: {'$t': v}))
